@@ -24,12 +24,33 @@ def build_frame(kind, direction, ssn, rsn):
         return frames.DisconnectFrame(dst, src)
     if kind == "rr":
         return frames.ReceiveReadyFrame(dst, src, receive_sequence_number=rsn)
-    if kind == "i":
+    if kind in ("i", "i0", "iseg"):
+        # "i0": poll/final bit clear; "iseg": a segment (segmented bit set) - information frames all the same
         return frames.InformationFrame(dst, src, b"\xe6\xe7\x00\x01\x02", send_sequence_number=ssn,
-                                       receive_sequence_number=rsn)
+                                       receive_sequence_number=rsn, final=(kind != "i0"), segmented=(kind == "iseg"))
+    if kind in ("rnr", "rej", "srej"):
+        # the other supervisory frames of HDLC (receive-not-ready, reject, selective reject): no class in the library; built by
+        # hand from a receive-ready frame.  For the procedure they are frames the client does not accept (like UI).
+        raw = bytearray(frames.ReceiveReadyFrame(dst, src, receive_sequence_number=rsn).to_bytes())
+        pos = len(raw) - 4
+        raw[pos] = (raw[pos] & 0xF0) | {"rnr": 0x5, "rej": 0x9, "srej": 0xD}[kind]
+        from dlms_cosem.crc import CRCCCITT
+        raw[-3:-1] = CRCCCITT().calculate_for(bytes(raw[1:-3]))
+        return RawFrame(bytes(raw))
     if kind == "ui":
         return frames.UnnumberedInformationFrame(dst, src, b"\x01\x02")
     raise ValueError(kind)
+
+
+class RawFrame:
+    def __init__(self, b):
+        self.b = b
+
+    def to_bytes(self):
+        return self.b
+
+
+LINE_KIND = {"i0": "i", "iseg": "i", "rnr": "ui", "rej": "ui", "srej": "ui"}
 
 
 def run_history(ops):
@@ -94,7 +115,7 @@ class C11(fw.Prop):
 
     def make_case(self, d):
         ops = [tuple(o) for o in d["ops"]]
-        lines = ["link init"] + [f"link op {a} {k} {s} {r}" for a, k, s, r in ops]
+        lines = ["link init"] + [f"link op {a} {LINE_KIND.get(k, k)} {s} {r}" for a, k, s, r in ops]
         return fw.Case(lines, lambda: run_history(ops), "split", d, tags=(d.get("tag", "history"),))
 
     # canonical path to (phase, nSent%8, nRecv%8)
@@ -152,6 +173,16 @@ class C11(fw.Prop):
                                 probes.append((d, k, s, r))
                         else:
                             probes.append((d, k, 0, nr if k == "rr" else 0))
+                    # information frames with the poll/final bit clear or the segmented bit set carry numbers like any other;
+                    # RR with every receive number (it acknowledges, it does not renumber); RNR / REJ / SREJ are not RR
+                    for k in ("i0", "iseg"):
+                        for s, r in [(ns, nr), (nr, ns)]:
+                            probes.append((d, k, s, r))
+                    if d == "r":
+                        for r in range(8):
+                            probes.append((d, "rr", 0, r))
+                        for k in ("rnr", "rej", "srej"):
+                            probes.append((d, k, 0, ns))
                 # each probe is followed by a legal continuation so that a refused step that
                 # secretly changed something is exposed
                 for p in probes:
